@@ -41,7 +41,7 @@ func c08MapScripts(k *h.Case, g *spec.Gen) *spec.MapScripts {
 		case 2:
 			rows := r.IntN(7)
 			if r.IntN(12) == 0 {
-				rows = 10 + r.IntN(6) // long tables: two-digit row indices
+				rows = 12 + r.IntN(4) // long tables: two-digit row indices
 			}
 			for j := 0; j < rows; j++ {
 				row := &spec.MSRow{ID: g.Prog.NewID(), Var: []string{g.Name("VAR_T")}, Value: []string{fmt.Sprint(r.IntN(9))}}
@@ -57,7 +57,11 @@ func c08MapScripts(k *h.Case, g *spec.Gen) *spec.MapScripts {
 					row.Var = []string{"$TBL_VAR"}
 					row.Value = []string{"(", "$TBL_BASE", ")", "*", "2"}
 				}
-				if r.IntN(2) == 0 {
+				if rows >= 12 && (j == 1 || j == 11) {
+					// rows 1 and 11 of a long table: inline scripts with many chunks (two-digit chunk ids
+					// next to two-digit row indices)
+					row.Body = manyChunkBody(g, 10+r.IntN(5))
+				} else if r.IntN(2) == 0 {
 					row.Body = g.ScriptBody(fmt.Sprintf("%s_%s_%d", m.Name, e.Type, j))
 				} else {
 					row.Label = g.Name("Target")
@@ -127,6 +131,13 @@ func runC08(ctx *h.Ctx) int {
 			k.Violation(key, fmt.Sprintf(format, a...), map[string]interface{}{"output": res.Out})
 		}
 		bnd := boundaryOf(rp, f)
+		// no label of the file may be defined twice (inline scripts of different entries / rows must not collide)
+		for name, defs := range f.Labels {
+			if len(defs) > 1 {
+				bad("label-defined-twice", "label %q is defined %d times (lines %v)", name, len(defs), defs)
+				return
+			}
+		}
 		for _, it := range rp.Items {
 			m, ok := it.(*spec.MapScripts)
 			if !ok {
@@ -313,4 +324,19 @@ func runC08(ctx *h.Ctx) int {
 func expandC08(s string) string {
 	s = strings.ReplaceAll(s, "$TBL_BASE", "4")
 	return strings.ReplaceAll(s, "$TBL_VAR", "VAR_TEMP_0 + 1")
+}
+
+// manyChunkBody builds a body that compiles to at least n chunks: a command, an
+// if, and a switch with n cases whose bodies are single commands.
+func manyChunkBody(g *spec.Gen, n int) *spec.Block {
+	b := &spec.Block{ID: g.Prog.NewID()}
+	b.Stmts = append(b.Stmts, &spec.CmdStmt{Cmd: g.Cmd()})
+	fl := &spec.Leaf{ID: g.Prog.NewID(), Kind: spec.LeafFlag, Operand: []string{g.Name("FLAG_M")}}
+	b.Stmts = append(b.Stmts, &spec.If{ID: g.Prog.NewID(), Arms: []*spec.Arm{{Cond: fl, Body: &spec.Block{ID: g.Prog.NewID(), Stmts: []spec.Stmt{&spec.CmdStmt{Cmd: g.Cmd()}}}}}})
+	sw := &spec.Switch{ID: g.Prog.NewID(), Operand: []string{g.Name("VAR_M")}}
+	for i := 0; i < n; i++ {
+		sw.Cases = append(sw.Cases, &spec.Case{ID: g.Prog.NewID(), Value: []string{fmt.Sprint(i)}, Body: &spec.Block{ID: g.Prog.NewID(), Stmts: []spec.Stmt{&spec.CmdStmt{Cmd: g.Cmd()}}}})
+	}
+	b.Stmts = append(b.Stmts, sw, &spec.CmdStmt{Cmd: g.Cmd()})
+	return b
 }
